@@ -71,6 +71,26 @@ def main() -> int:
                 spec_failures.append({"suite": "metamorphic-rename", "dialect": d, "pool": pool, "as_keyword": use_as,
                                       "original_sql": astgen.to_sql(s), "renamed_sql": rec["sql"], "original_result": b, "renamed_result": g,
                                       "spec": "renaming statement-local names (or adding/removing AS) leaves tables and end-to-end column pairs unchanged"})
+        # scope-aware renaming: an alias local to a derived table takes the bare name of a table of the enclosing query
+        if d == "ansi" or not quick:
+            trip = [astgen.gen_scoped(r) for _ in range(60 if quick else 800)]
+            sspec = sqltie.spec_strings([t[0] for t in trip]) if d == "ansi" else None
+            sbase = t2tie.summaries(sqltie.records([t[0] for t in trip], dialect=d))
+            sren = t2tie.summaries([{"sql": astgen.to_sql(s, astgen.Opts(rename={a: nn})), "dialect": d, "metadata": None, "config": {}} for s, a, nn in trip])
+            for k, ((s, a, nn), b, g) in enumerate(zip(trip, sbase, sren)):
+                ck.count()
+                dist["pools"]["enclosing-table-name"] = dist["pools"].get("enclosing-table-name", 0) + 1
+                if b.startswith("ERR:InvalidSyntax") or g.startswith("ERR:InvalidSyntax"):
+                    dist["rejected_by_parser"] += 1
+                    continue
+                ck.nontriv((d, "enclosing-table-name", astgen.to_sql(s)))
+                if sspec is not None and b != sspec[k]:
+                    spec_failures.append({"suite": "I-vs-S", "dialect": d, "sql": astgen.to_sql(s), "impl": b, "spec": sspec[k]})
+                elif b != g:
+                    spec_failures.append({"suite": "metamorphic-rename", "dialect": d, "pool": "enclosing-table-name", "renamed": {a: nn},
+                                          "original_sql": astgen.to_sql(s), "renamed_sql": astgen.to_sql(s, astgen.Opts(rename={a: nn})),
+                                          "original_result": b, "renamed_result": g,
+                                          "spec": "renaming an alias that is local to a derived table, to a name that is not visible in that derived table, changes nothing"})
         # tie on a renamed variant
         recs = []
         for s in stmts[: (40 if quick else 300)]:
@@ -91,7 +111,7 @@ def main() -> int:
                 "correspondence T2 (renamed text) between Tree/*.v and sqllineage/core/parser/sqlfluff",
                 "every renaming of every generated statement was compared with the original on the implementation; no failing input")
     return ck.finish(rule="%d generated statements with local names x 6 renaming pools (fresh, mixed case, quoted with upper case, names of other tables, "
-                          "keyword-like, upper case) x with/without AS x dialects %s, random injective assignment per statement; non-trivial = distinct "
+                          "keyword-like, upper case), plus scoped statements whose derived-table-local alias takes the bare name of a table of the enclosing query, x with/without AS x dialects %s, random injective assignment per statement; non-trivial = distinct "
                           "(dialect, pool, AS, renamed SQL)" % (len(stmts), ",".join(dialects)))
 
 
